@@ -460,6 +460,8 @@ def _chains(d, chain=()):
 
 def _is_known_dup(fl):
     '''known finding: sections sharing a chain of titles are merged into one page (and only that)'''
+    if 'report' not in fl['input']:
+        return False
     ch = _chains(fl['input']['report'])
     return len(set(ch)) != len(ch) and all('merged into one page' in o or 'is not on its page' in o for o in fl['observed'])
 
@@ -504,6 +506,6 @@ def run_unit(unit, tier, seed, known):
 
 
 def replay(name, inp):
-    if inp and 'report' in inp:
+    if inp and ('report' in inp or inp.get('figures')):
         return rnat.replay(inp)
     return _replay_native(name or '', inp)
